@@ -159,6 +159,16 @@ impl Group for PoolGroup {
                         out.oracle.push(OracleFail { sig: "reaper_closed_busy_session/session_idle_since_creation".into(), detail: format!("session {i} was closed by pool housekeeping while {} stream(s) were open on it (interval {} ms, timeout {} ms, min_idle {})", open_streams[i], cfg.0, cfg.1, cfg.2) });
                     }
                 }
+                // O (C12): housekeeping never closes a healthy session when that leaves fewer idle sessions than the configured minimum
+                let closed_by_hk: Vec<usize> = nodes.iter().enumerate().filter(|(i, n)| *i < was_closed.len() && !was_closed[*i] && n.session.is_closed() && by_owner != Some(*i)).map(|(i, _)| i).collect();
+                if !closed_by_hk.is_empty() {
+                    if let Some(p) = pool.as_ref() {
+                        let idle_after = p.idle_count().await;
+                        if (idle_after as u64) < cfg.2 {
+                            out.oracle.push(OracleFail { sig: "fewer_than_min_idle/reaper".into(), detail: format!("pool housekeeping closed healthy session(s) {closed_by_hk:?} and left {idle_after} idle session(s), min_idle is {} (interval {} ms, timeout {} ms)", cfg.2, cfg.0, cfg.1) });
+                        }
+                    }
+                }
                 out.tags.push(format!("op={}", toks.get(1).unwrap_or(&"")));
                 out.obs.push(o);
                 if !matches!(toks.as_slice(), ["pool", "adv", _]) { tokio::time::sleep_until(slot_end).await; }
